@@ -173,8 +173,12 @@ func (e *Engine) evalIdent(s *State, c *SpecCtx, name string) *SV {
 	if b, ok := c.Bound[name]; ok {
 		return b
 	}
+	aliased := false
 	if !c.NoAlias {
+		orig := name
 		name = e.actualParamName(c.Fn, name)
+		// a parameter the source happens to call "result" is reached through its positional name
+		aliased = name != orig
 	}
 	switch name {
 	case "true", "false":
@@ -187,7 +191,7 @@ func (e *Engine) evalIdent(s *State, c *SpecCtx, name string) *SV {
 		}
 	}
 	// results
-	if c.Results != nil {
+	if c.Results != nil && !aliased {
 		if name == "result" && len(c.Results) > 0 {
 			return e.svOf(c.Results[0], c.RTypes[0])
 		}
@@ -693,6 +697,17 @@ func (e *Engine) evalCall(s *State, c *SpecCtx, n *ast.CallExpr) *SV {
 		c2.Bound = map[string]*SV{}
 		for k, v := range c.Bound {
 			c2.Bound[k] = v
+		}
+		if len(n.Args) == 3 {
+			// forallkey(k, m, body): for every key k of the key type of the map m
+			mt, ok := arg(1).T.Underlying().(*types.Map)
+			if !ok {
+				e.unsupportedf("forallkey: second argument is not a map in %s", c.Fn)
+			}
+			_, _, ks := e.mapNames(mt)
+			c2.Bound[id] = &SV{V: &Val{L: []string{q}}, Sort: ks, T: mt.Key()}
+			body := e.evalBool(s, &c2, n.Args[2])
+			return svBool(fmt.Sprintf("(forall ((%s %s)) %s)", q, ks, body))
 		}
 		c2.Bound[id] = &SV{V: &Val{L: []string{q}}, Sort: "Str", T: types.Typ[types.String]}
 		body := e.evalBool(s, &c2, n.Args[1])
